@@ -471,3 +471,73 @@ Lemma readers_allocate :
     (bs "ZstdReader", bs "Read", bs "zr", bs "zstd.NewReader(zr.Body)");
     (bs "gzipReader", bs "Read", bs "zr", bs "gzip.NewReader(gz.body)") ].
 Proof. split; reflexivity. Qed.
+
+(* ---------- damaged streams and stickiness under interleaving ---------- *)
+
+(* whatever the decoder makes of response i's body - data, then its terminal status - is what
+   response i's caller gets, in any interleaving (no round-trip hypothesis: damaged streams included) *)
+Lemma interleaved_reader_stream dec bodies ops i e w sizes :
+  nth_error bodies i = Some (Lazy e w) ->
+  project i ops = map OReadFull sizes ->
+  Forall (fun n => 0 < n) sizes -> length (s_data (dec e w)) < length sizes ->
+  let res := results_of i ops (fst (sess_run dec ops (sess_open bodies))) in
+  delivered_bytes res = s_data (dec e w) /\ last (map snd res) StOk = StEnd (s_end (dec e w)).
+Proof.
+  intros Hb Hproj Hpos Hlen. cbv zeta.
+  rewrite (session_independence dec _ _ _ _ Hb), Hproj. cbn [open_body].
+  rewrite crd_run_lazy. unfold new_decoder. now apply crd_run_readfulls.
+Qed.
+
+(* one reader: once a ReadFull reported a terminal status, every later ReadFull reports no data and
+   the same status *)
+Lemma rd_read_full_sticky dec n r b e r' :
+  rd_read_full dec n r = (b, Some e, r') -> forall m, rd_read_full dec m r' = ([], Some e, r').
+Proof.
+  unfold rd_read_full. intros H m.
+  destruct (rd_read dec n r) as [[b1 [e1|]] r1] eqn:E1.
+  - injection H as <- <- <-. destruct (read_sticky _ _ _ _ _ _ E1) as [_ Hs]. now rewrite Hs.
+  - destruct (Nat.ltb (length b1) n); [|discriminate].
+    destruct (rd_read dec (n - length b1) r1) as [[b2 e2] r2] eqn:E2.
+    injection H as <- -> <-. destruct (read_sticky _ _ _ _ _ _ E2) as [_ Hs]. now rewrite Hs.
+Qed.
+
+Lemma crd_run_after_end dec e : forall sizes r,
+  (forall m, rd_read_full dec m r = ([], Some e, r)) ->
+  fst (crd_run dec (map OReadFull sizes) (COpen r)) = map (fun _ => ([], StEnd e)) sizes.
+Proof.
+  induction sizes as [|n rest IH]; intros r Hr; [reflexivity|].
+  cbn [map]. rewrite crd_run_cons. cbn [crd_step]. rewrite Hr. cbn [fst snd ostat_of].
+  now rewrite IH.
+Qed.
+
+Lemma crd_run_sticky dec : forall sizes r k e,
+  nth_error (map snd (fst (crd_run dec (map OReadFull sizes) (COpen r)))) k = Some (StEnd e) ->
+  forall j, k < j -> j < length sizes ->
+  nth_error (fst (crd_run dec (map OReadFull sizes) (COpen r))) j = Some ([], StEnd e).
+Proof.
+  induction sizes as [|n rest IH]; intros r k e Hk j Hkj Hj; [simpl in Hj; lia|].
+  cbn [map] in *. rewrite crd_run_cons in *. cbn [crd_step] in *.
+  destruct (rd_read_full dec n r) as [[b err] r'] eqn:E. cbn [fst snd map] in *.
+  destruct j as [|j']; [lia|]. cbn [nth_error].
+  destruct k as [|k'].
+  - cbn [nth_error] in Hk. destruct err as [x|]; cbn [ostat_of] in Hk; [|discriminate].
+    injection Hk as ->.
+    rewrite (crd_run_after_end dec e rest r' (rd_read_full_sticky _ _ _ _ _ _ E)).
+    cbn [length] in Hj. clear -Hj. revert j' Hj. induction rest as [|a t IHt]; intros j' Hj.
+    + simpl in Hj. lia.
+    + destruct j' as [|j'']; [reflexivity|]. cbn [map nth_error]. apply IHt. simpl in *. lia.
+  - cbn [nth_error] in Hk. apply (IH r' k' e Hk j'); [lia|]. simpl in Hj. lia.
+Qed.
+
+(* in a session: whatever is interleaved, once an operation of response i reported a terminal status
+   (io.EOF or an error) every later ReadFull of response i reports no data and that same status *)
+Lemma session_sticky dec bodies ops i b sizes k e :
+  nth_error bodies i = Some b ->
+  project i ops = map OReadFull sizes ->
+  let res := results_of i ops (fst (sess_run dec ops (sess_open bodies))) in
+  nth_error (map snd res) k = Some (StEnd e) ->
+  forall j, k < j -> j < length sizes -> nth_error res j = Some ([], StEnd e).
+Proof.
+  intros Hb Hproj. cbv zeta. rewrite (session_independence dec _ _ _ _ Hb), Hproj.
+  apply crd_run_sticky.
+Qed.
